@@ -102,14 +102,15 @@ theorem crash_weak_inv_delGraph (hsplit : SplitFact) (s : KState) (g : String) (
 /-- **Weak invariant at every cut of every call** — partial: it assumes that the *completed* call
     re-establishes the weak invariant (`hfull`), which is part of the C03 invariant proof
     (GripProofs/Props/C03: `Inv` is preserved by `step`) and is not re-proved here.  What this
-    theorem adds is every *interior* cut: AddGraph (field keys before the graph key), DeleteGraph
-    (graph key first), and that all other calls issue a single atomic write. -/
+    theorem adds is every *interior* cut: AddGraph (sweep of an unlisted name, field keys before the
+    graph key), DeleteGraph (graph key first), and that all other calls issue a single atomic write.
+    Superseded by `crash_weak_inv` (GripProofs/Props/C04Full), which has neither `hsplit` nor `hfull`. -/
 theorem crash_weak_inv_partial (hsplit : SplitFact) (s : KState) (op : Op) (k : Nat)
     (hw : WeakInv s.kv) (hv : ValidListed s.kv) (hfull : WeakInv (step s op).1.kv) :
     WeakInv (crashAt s op k).kv := by
   rw [crash_kv]
   by_cases h1 : ∃ g, op = .addGraph g
-  · obtain ⟨g, rfl⟩ := h1; exact addGraph_cut s g k hw hfull
+  · obtain ⟨g, rfl⟩ := h1; exact addGraph_cut hsplit s g k hw hv hfull
   by_cases h2 : ∃ g, op = .delGraph g
   · obtain ⟨g, rfl⟩ := h2; exact delGraph_cut_weak hsplit s g k hw hv
   have hs := writes_single s op (fun g e => h1 ⟨g, e⟩) (fun g e => h2 ⟨g, e⟩)
@@ -126,12 +127,44 @@ theorem crash_atomic (s : KState) (op : Op) (k : Nat) (h1 : ∀ g, op ≠ .addGr
 /-- **Acknowledged requests are fully present**: at every cut of every call, every key holds the value
     it had before the call (the result of all acknowledged requests) or the value the completed call
     gives it; in particular keys the call does not write keep their value, and cut 0 is the state
-    before the call. -/
-theorem acked_present (s : KState) (op : Op) (k : Nat) :
+    before the call.  The third disjunct exists since the repair of AddGraph (an unlisted name is swept
+    before it is listed again): a key *owned by a name that was not listed before the call* (`Doomed g`:
+    elements, adjacency, label-index and field keys of `g`) may already have been deleted at the cut
+    although the completed call writes it again (the two field keys).  An unlisted name owns no
+    acknowledged data — no call can read those keys — so nothing acknowledged is lost. -/
+theorem acked_present (s : KState) (op : Op) (k : Nat) (key : SKey) :
+    (crashAt s op k).kv.get key = s.kv.get key ∨
+    (crashAt s op k).kv.get key = (step s op).1.kv.get key ∨
+    (∃ g, op = .addGraph g ∧ hasGraph s g = false ∧ Doomed g key = true ∧ (crashAt s op k).kv.get key = none) := by
+  rw [crash_kv]
+  by_cases h1 : ∃ g, op = .addGraph g
+  · obtain ⟨g, rfl⟩ := h1
+    by_cases hg : hasGraph s g = true
+    · rcases present_addGraph s g k (Or.inr hg) key with e | e
+      · exact Or.inl e
+      · exact Or.inr (Or.inl e)
+    · rcases presentSwept_addGraph s g k key with e | e | e
+      · exact Or.inl e
+      · exact Or.inr (Or.inl e)
+      · exact Or.inr (Or.inr ⟨g, rfl, by simpa using hg, e⟩)
+  by_cases h2 : ∃ g, op = .delGraph g
+  · obtain ⟨g, rfl⟩ := h2
+    rcases present_delGraph s g k key with e | e
+    · exact Or.inl e
+    · exact Or.inr (Or.inl e)
+  have hs := writes_single s op (fun g e => h1 ⟨g, e⟩) (fun g e => h2 ⟨g, e⟩)
+  rcases cut_single s op k hs with e | e <;> rw [e]
+  · exact Or.inl rfl
+  · exact Or.inr (Or.inl rfl)
+
+/-- The strict form (`Present`: before or after, nothing else) for every call except AddGraph of a valid
+    name that is not listed. -/
+theorem acked_present_strict (s : KState) (op : Op) (k : Nat)
+    (h : ∀ g, op = .addGraph g → ¬ validName g = true ∨ hasGraph s g = true) :
     Present s.kv (crashAt s op k).kv (step s op).1.kv := by
   rw [crash_kv]
   by_cases h1 : ∃ g, op = .addGraph g
-  · obtain ⟨g, rfl⟩ := h1; exact present_addGraph s g k
+  · obtain ⟨g, rfl⟩ := h1; exact present_addGraph s g k (h g rfl)
   by_cases h2 : ∃ g, op = .delGraph g
   · obtain ⟨g, rfl⟩ := h2; exact present_delGraph s g k
   have hs := writes_single s op (fun g e => h1 ⟨g, e⟩) (fun g e => h2 ⟨g, e⟩)
